@@ -148,6 +148,11 @@ B('G7-param-constant', ['C19'], 'batch.py', 'Batch.sort_index',
   'kind=kind,', 'kind=DEFAULT_SORT_KIND,', 'G7', 'Batch.sort_index')
 B('G8-left-right', ['C20'], 'frame.py', 'Frame.join_left',
   'join_type=Join.LEFT', 'join_type=Join.RIGHT', 'G8', 'join_left')
+B('G8-mirror-wrong-set', ['C20'], 'frame.py', 'Frame._join',
+  'for x in right_index if x not in right_loc_set)\n                final_index = Index(chain(many_loc, extend))', 'for x in right_index if x not in left_loc_set)\n                final_index = Index(chain(many_loc, extend))', 'G8', '_join')
+N('G8-mirror-renamed-local', ['C20'], 'frame.py', 'Frame._join',
+  'extend = (PairRight((cifv, x))\n                        for x in right_index if x not in right_loc_set)\n                final_index = Index(chain(many_loc, extend))',
+  'extra = (PairRight((cifv, y))\n                        for y in right_index if y not in right_loc_set)\n                final_index = Index(chain(many_loc, extra))')
 B('G8-mirror-broken', ['C20'], 'frame.py', 'Frame._join',
   'for x in right_index if x not in right_loc_set)\n                final_index = Index(chain(many_loc, extend))',
   'for x in right_index if x not in left_loc_set)\n                final_index = Index(chain(many_loc, extend))', 'G8', '_join')
@@ -221,10 +226,10 @@ B('C-rename-share-blocks', ['C09'], 'frame.py', 'Frame.rename',
   'self._blocks.copy()', 'self._blocks', 'C.own-handoff', 'Frame.rename')
 B('C-group-own-go-columns', ['C09'], 'frame.py', 'Frame._axis_group_iloc_items',
   'own_columns=self.STATIC, # own if static', 'own_columns=True,', 'C.own-handoff', '_axis_group_iloc_items')
-B('C-setindex-flag-flip', ['C09', 'C20'], 'frame.py', 'Frame.set_index',
+B('C-setindex-flag-flip', ['C09'], 'frame.py', 'Frame.set_index',
   'columns = self._columns\n            own_data = False\n            own_columns = False', 'columns = self._columns\n            own_data = False\n            own_columns = True',
   'C.own-handoff', 'Frame.set_index')
-B('C-setindex-data-flip', ['C09', 'C20'], 'frame.py', 'Frame.set_index',
+B('C-setindex-data-flip', ['C09'], 'frame.py', 'Frame.set_index',
   'blocks = self._blocks\n            columns = self._columns\n            own_data = False', 'blocks = self._blocks\n            columns = self._columns\n            own_data = True',
   'C.own-handoff', 'Frame.set_index')
 B('C-extract-own-null-slice', ['C09'], 'frame.py', 'Frame._extract',
@@ -248,7 +253,7 @@ B('C-optional-ctor-share', ['C09'], 'container_util.py', 'index_from_optional_co
   '            if not value.STATIC:\n                return value', 'C.sharing-guards', 'index_from_optional_constructor')
 B('C-immutable-filter-always', ['C09', 'C01'], 'index.py', 'immutable_index_filter',
   'if index.STATIC:\n        return index', 'if True:\n        return index', 'C.sharing-guards', 'immutable_index_filter')
-B('C-grow-shared-blocks', ['C09', 'C20'], 'frame.py', 'Frame.relabel_shift_in',
+B('C-grow-shared-blocks', ['C09'], 'frame.py', 'Frame.relabel_shift_in',
   'ih_blocks = index_target._blocks.copy() # will mutate copied blocks', 'ih_blocks = index_target._blocks', 'C.who-may-grow', 'relabel_shift_in')
 B('C-grow-foreign-columns', ['C09'], 'frame.py', 'Frame._insert',
   'columns = self._columns.__class__.from_labels(chain(', 'self._columns.extend(())\n        columns = self._columns.__class__.from_labels(chain(', 'C.who-may-grow', 'Frame._insert')
